@@ -101,3 +101,23 @@ def rel_err(a, b):
     nb = fro(b)
     d = fro(a - b)
     return d / nb if nb > 0 else d
+
+
+def graded_cores(N, J, step, dtype, g, M=None):
+    """TT (or TT-matrix) = sum_{j=0..J} 10^(-j*step) * (random rank-one term with unit-norm factors), stored with
+    rank J+1 block-diagonal cores.  Its unfoldings have singular values spread geometrically over J*step decades, so
+    every truncation threshold cuts somewhere and an inflated threshold shows up as a proportionally larger error."""
+    d = len(N)
+    r = J + 1
+    cores = []
+    for k in range(d):
+        shape = [1 if k == 0 else r] + ([M[k]] if M is not None else []) + [N[k], 1 if k == d - 1 else r]
+        c = torch.zeros(shape, dtype=DTYPES[dtype] if isinstance(dtype, str) else dtype)
+        for j in range(r):
+            v = randn(shape[1:-1], dtype, g)
+            v = v / max(fro(v), 1e-300)
+            if k == 0:
+                v = v * (10.0 ** (-j * step))
+            c[0 if k == 0 else j, ..., 0 if k == d - 1 else j] = v
+        cores.append(c)
+    return cores
